@@ -776,6 +776,36 @@ func (e *Engine) registerAtomicIntrinsics() {
 			return BoolV{C: same}
 		}
 	}
+	// sync.Pool: Get returns the value put last (always a legal behaviour of the real pool: it may keep or drop values at
+	// will; handing the same object to the next caller is what a per-P cache does), else New(). Put(x) synchronises
+	// before the Get that returns x.
+	in["(*sync.Pool).Put"] = func(r *Run, fr *frame, a []Value) Value {
+		p := a[0].(Ptr)
+		if r.pools == nil {
+			r.pools = map[Ptr][]Value{}
+		}
+		if v, ok := a[1].(Iface); ok && v.T == nil {
+			return nil
+		}
+		r.raceRelease(poolKey{p})
+		r.pools[p] = append(r.pools[p], a[1])
+		return nil
+	}
+	in["(*sync.Pool).Get"] = func(r *Run, fr *frame, a []Value) Value {
+		p := a[0].(Ptr)
+		if l := r.pools[p]; len(l) > 0 {
+			v := l[len(l)-1]
+			r.pools[p] = l[:len(l)-1]
+			r.raceAcquire(poolKey{p})
+			return v
+		}
+		st := (*p).(Struct)
+		newf := st[len(st)-1] // New is the last field of sync.Pool
+		if c, ok := newf.(*Closure); ok && c != nil {
+			return r.call(fr, c, nil)
+		}
+		return Iface{}
+	}
 	in["sync/atomic.LoadPointer"] = func(r *Run, fr *frame, a []Value) Value {
 		r.raceAcquire(atomicKey{a[0].(Ptr)})
 		return *a[0].(Ptr)
